@@ -16,7 +16,8 @@ RULE = ("for dimension-wise and extend-split configurations (library integrands;
         "structure, scheme, lmax, result and point count are compared with U; directly after restore the restored object's result "
         "and interpolation are compared with the saved object's. distinct = digest(strategy, configuration, k); non-trivial = "
         "interruption point with 0 < k < last evaluation of U")
-REQUIRED = ["continue_structure", "continue_scheme", "continue_result", "continue_points", "restore_identical_result",
+RULE += (" Dimension-wise cases additionally stop by a loose TOLERANCE (error against the analytic reference) and continue with a tighter one; the end state is compared with the single run using the tight tolerance.")
+REQUIRED = ["continue_tighter_tolerance", "continue_structure", "continue_scheme", "continue_result", "continue_points", "restore_identical_result",
             "restore_identical_interpolation", "restored_continue_structure", "restored_continue_result"]
 MIN_NONTRIVIAL = {"quick": 60, "thorough": 800}
 CHUNK = {"quick": 3, "thorough": 12}
@@ -76,6 +77,47 @@ def state(strategy, c):
 def quiet(fn, *a, **k):
     with contextlib.redirect_stdout(io.StringIO()):
         return fn(*a, **k)
+
+
+def tolerance_continuation(case, res, rng, cfg, fname, fac, M):
+    """'larger limits' also means a tighter tolerance: a run stopped by a loose tolerance and continued with a tight one must end
+    where a single run with the tight tolerance ends (dimension-wise strategy, error measured against the analytic reference)."""
+    f0 = fac()
+    ref = f0.getAnalyticSolutionIntegral(np.array(cfg["a"], dtype=float), np.array(cfg["b"], dtype=float))
+    cfg_t = dict(cfg, reference=ref)
+    args = dict(lmin=cfg["lmin"], lmax=cfg["lmax"], do_plot=False, print_output=False)
+    c0, e0 = build("dimwise", cfg_t, fac())
+    r0 = quiet(c0.performSpatiallyAdaptiv, errorOperator=e0, tol=-1.0, max_evaluations=M, **args)
+    errs = [float(x) for x in r0[5]]
+    minima = [i for i in range(len(errs)) if errs[i] > 0 and all(errs[i] < x for x in errs[:i])]
+    if len(minima) < 2:
+        res.note("no_two_running_minima_for_tolerance_variant")
+        return
+    j = rng.choice(minima[1:])
+    k = rng.choice([i for i in minima if i < j])
+
+    def tol_for(i):
+        prev = min(errs[:i]) if i > 0 else errs[i] * 4
+        return 0.5 * (errs[i] + prev)
+    tol1, tol2 = tol_for(k), tol_for(j)
+    ctx = {"cfg": cfg, "function": fname, "M": M, "errors": errs[:12], "k": k, "j": j, "tol_first": tol1, "tol_final": tol2}
+    cu, eu = build("dimwise", cfg_t, fac())
+    ru = quiet(cu.performSpatiallyAdaptiv, errorOperator=eu, tol=tol2, max_evaluations=M, **args)
+    res.check("interruption_point", len(ru[6]) - 1 == j, "C14_harness_tolerance_stop",
+              "harness: run with the final tolerance stopped at evaluation %d instead of %d" % (len(ru[6]) - 1, j), ctx)
+    ca, ea = build("dimwise", cfg_t, fac())
+    ra = quiet(ca.performSpatiallyAdaptiv, errorOperator=ea, tol=tol1, max_evaluations=M, **args)
+    res.check("interruption_point", len(ra[6]) - 1 == k, "C14_harness_tolerance_stop",
+              "harness: run with the first tolerance stopped at evaluation %d instead of %d" % (len(ra[6]) - 1, k), ctx)
+    rc = quiet(ca.continue_adaptive_refinement, tol=tol2, max_evaluations=M)
+    su, sc = state("dimwise", cu), state("dimwise", ca)
+    res.check("continue_tighter_tolerance", sc == su and ca.get_total_num_points() == cu.get_total_num_points(),
+              "C14_continue_with_tighter_tolerance_differs:dimwise",
+              "stopped by tol=%.3g at evaluation %d and continued with tol=%.3g: %d points, the single run with the final tolerance "
+              "ends with %d points (structure/scheme equal: %s)" % (tol1, k, tol2, ca.get_total_num_points(), cu.get_total_num_points(), sc == su), ctx)
+    scale = max(1e-300, float(np.max(np.abs(np.array(ru[3], dtype=float)))))
+    res.close("continue_tighter_tolerance", np.array(rc[3], dtype=float), np.array(ru[3], dtype=float), 1e-11 * scale,
+              "C14_continue_with_tighter_tolerance_result:dimwise", "result after the tolerance continuation differs from the single run", ctx)
 
 
 def run_case(case, res):
@@ -154,6 +196,8 @@ def run_case(case, res):
             if 0 < k:
                 res.states.add(digest([strategy, cfg, k, variant]))
         trace.append(k)
+    if strategy == "dimwise":
+        tolerance_continuation(case, res, rng, cfg, fname, fac, M)
     res.hash = digest([strategy, cfg, fname, M])
     res.nontrivial = any(0 < k for k in trace)
     res.count("interruption_points", len(trace))
